@@ -78,6 +78,9 @@ def both(ps, w):
         nob += 1
         if not ok4:
             bad.append(("%s:referenced-object-disturbed" % name_, ""))
+    for name_, inst in (("one-call", sA), ("in-steps", sB)):
+        for p in w.instance_problems(inst):
+            bad.append(("%s:%s" % (name_, p[0]), p[1:]))
     clsA, clsB = w.classify(vA) if rA != "ok" else "ok", w.classify(vB) if rB != "ok" else "ok"
     bound = pre["bind"][i] >= 0
     if valid:
